@@ -421,6 +421,9 @@ pub fn for_programs(
         rep.hist("profiles", prof.name());
         rep.inc("programs");
         rep.sample(|| format!("[{}] {}", prof.name(), prog.to_text().replace('\n', "; ")));
+        if std::env::var("SMTMON_TRACE").is_ok() {
+            eprintln!("PROGRAM\n{}", prog.to_text());
+        }
         let t0 = std::time::Instant::now();
         // programs with loop bounds beyond 2^20: closure enumerations are given up (the case skipped) after 50 ms
         let _restore = if prog.has_huge_bound() { Some(Restore(CLOSURE_MS.swap(50, std::sync::atomic::Ordering::Relaxed))) } else { None };
